@@ -170,7 +170,7 @@ var c12MediaAttrs = []string{` crossorigin`, ` crossorigin=""`, ` crossorigin=an
 var c12FrameAttrs = []string{` sandbox`, ` sandbox="allow-forms"`, ` sandbox="allow-forms allow-scripts"`, ` sandbox="allow-forms&#9;allow-forms"`,
 	` sandbox="allow-popups bogus"`, ` sandbox="ALLOW-FORMS&#10;allow-scripts"`, ` sandbox="allow-scripts allow-forms allow-scripts"`,
 	` sandbox="allow-downloads allow-top-navigation-by-user-activation allow-same-origin"`, ` src=x`, ` title=t`, ` onclick=x`,
-	` sandbox="` + strings.Join(spec.SandboxNames, " ") + `"`, ` sandbox="allow-forms&#11;allow-scripts"`, ` sandbox="allow-forms&nbsp;allow-scripts&#x3000;allow-forms"`}
+	` sandbox="` + strings.Join(spec.SandboxNames, " ") + `"`, ` sandbox="allow-forms&#11;allow-scripts"`, ` sandbox="allow-forms ALLOW-FORMS"`, ` sandbox="allow-pointer-loc\u212a allow-scripts"`, ` sandbox="allow-forms&nbsp;allow-scripts&#x3000;allow-forms"`}
 
 func runC12(c *run.Ctx) {
 	media, frames := c12Specs(c)
